@@ -15,6 +15,23 @@ def solve_one(ob, timeout_ms=10000, use_cvc5=True):
         return ob
     s = z3.Solver()
     quantified = any(_has_quant(c) for c in list(ob.pc) + [ob.goal])
+    if ob.meta.get("first") == "cvc5" and not quantified:
+        # query classes on which z3 is unstable (mixed real/integer floor terms): cvc5 decides them in milliseconds
+        for c in ob.pc:
+            s.add(c)
+        s.add(z3.Not(ob.goal))
+        r2 = run_cvc5(s.to_smt2(), timeout_ms)
+        if r2 == "unsat":
+            ob.status, ob.solver, ob.time_s = "proved", "cvc5", time.time() - t0
+            return ob
+        if r2 == "sat":
+            ob.status, ob.solver = "failed", "cvc5"
+            s.set("timeout", min(timeout_ms, 5000))
+            if s.check() == z3.sat:
+                ob.model = s.model()
+            ob.time_s = time.time() - t0
+            return ob
+        s = z3.Solver()
     stringy = "str." in ob.goal.sexpr() or "re." in ob.goal.sexpr()
     first_budget = min(timeout_ms, 4000) if quantified else (min(timeout_ms, 2500) if stringy else timeout_ms)
     s.set("timeout", first_budget)
